@@ -3,6 +3,7 @@
 package yqlib
 
 import (
+	"bytes"
 	"fmt"
 	"io"
 	"math"
@@ -151,7 +152,13 @@ func (dec *luaDecoder) Decode() (*CandidateNode, error) {
 	}
 	ls := lua.NewState(lua.Options{SkipOpenLibs: true})
 	defer ls.Close()
-	fn, err := ls.Load(dec.reader, "@input")
+	// read the input first: the lua scanner keeps calling Read for ever
+	// when the reader reports an error other than io.EOF
+	source, err := io.ReadAll(dec.reader)
+	if err != nil {
+		return nil, err
+	}
+	fn, err := ls.Load(bytes.NewReader(source), "@input")
 	if err != nil {
 		return nil, err
 	}
